@@ -1066,7 +1066,12 @@ Inductive ncase :=
 (* NamedRange(name, area, table name): accepted?, the two attributes written, what the implementation reads back *)
 | NMake (n : str) (a : area) (accepted : bool) (base range : option str) (back : option (str * quad))
 (* Table.name = new in a document: ranges (name, base, range, points to the renamed table?, area) before / after; raised? *)
-| NRename (old new : str) (before : list (nrange * bool * area)) (ok : bool) (after : list nrange).
+| NRename (old new : str) (before : list (nrange * bool * area)) (ok : bool) (after : list nrange)
+(* Table.get_named_ranges(table_name = one name | list of names): names of the ranges returned *)
+| NLookup (ranges : list nrange) (queries : list (list str * option (list str))).
+Definition nr_name_of (r : nrange) : str := let '(n, _, _) := r in n.
+Definition points_to (names : list str) (r : nrange) : bool :=
+  match parse_range (nr_range r) with Some (tn, _) => existsb (str_eqb tn) names | None => false end.
 (* 1: the address written is not read back as (table name, area) by the implementation
    3: the address written does not denote (table name, area) for the reader model (ODF syntax: quoted name, doubled apostrophe)
    5: after renaming, a range that pointed to the table does not point to the new name / another range changed
@@ -1093,6 +1098,10 @@ Definition chk (c : ncase) : nat :=
              | Some l => if list_eqb nrange_eqb l after then 0 else 8
              | None => 8 end
       end
+  | NLookup ranges queries =>
+      if forallb (fun q => match snd q with
+                           | Some res => list_eqb str_eqb res (map nr_name_of (filter (points_to (fst q)) ranges))
+                           | None => false end) queries then 0 else 6
   end.
 '''
 
@@ -1105,6 +1114,34 @@ def gen_name(rng):
     if rng.random() < .3:
         return rng.choice(NAME_EDGE)
     return "".join(rng.choice(NAME_ALPHA) for _ in range(rng.randint(1, 7)))
+
+
+def name_usable(n):
+    return bool(n) and n == n.strip() and not any(c in n for c in "\n\\/*?:[]") and not n.startswith("'") and not n.endswith("'")
+
+
+def near_name(rng, n):
+    """a different name that looks like n: contained in it, containing it, other case, other blanks"""
+    k = rng.randint(0, 9); L = len(n)
+    if k == 0 and L > 1:
+        return n[:rng.randint(1, L - 1)].strip()
+    if k == 1 and L > 1:
+        return n[rng.randint(1, L - 1):].strip()
+    if k == 2 and L > 2:
+        i = rng.randint(1, L - 2); return n[i:rng.randint(i + 1, L - 1)].strip()
+    if k == 3:
+        return n + rng.choice([" 2", "0", "x", ".1", " " + n])
+    if k == 4:
+        return rng.choice(["x", "A ", "1", n]) + n
+    if k == 5:
+        return n.swapcase()
+    if k == 6:
+        return n.replace(" ", "  ") if " " in n else n[:L // 2] + " " + n[L // 2:]
+    if k == 7:
+        return n.replace(" ", "") if " " in n else n + " " + n
+    if k == 8:
+        return n[:-1] + rng.choice("ab1 .") if L > 1 else n + "a"
+    return n + n
 
 
 def gen_named(rng, tier):
@@ -1122,23 +1159,32 @@ def gen_named(rng, tier):
                 if n and not any(c in n for c in "\n\\/*?:[]") and not n.startswith("'") and not n.endswith("'"):
                     return n
             return "T"
-        old = okname(); other = okname()
-        if other == old:
-            other = old + "x"
-        new = gen_name(rng) if rng.random() < .2 else okname()
+        old = okname()
+        # the other tables: mostly NEAR-IDENTICAL names (contained in / containing the renamed one, case and blank variants):
+        # a lookup or a rename by table name must move exactly the ranges of that table and of no look-alike
+        others = []
+        for _ in range(rng.randint(1, 3)):
+            cand = near_name(rng, old) if rng.random() < .7 else okname()
+            if name_usable(cand) and cand != old and cand not in others:
+                others.append(cand)
+        if not others:
+            others = [old + "x"]
+        new = gen_name(rng) if rng.random() < .15 else near_name(rng, rng.choice(others + [old])) if rng.random() < .4 else okname()
+        if new.strip() in others or new.strip() == old:
+            new = new.strip() + "z"
         ranges = []
-        for i in range(rng.randint(1, 4)):
+        for i in range(rng.randint(1, 5)):
             x, y = rng.randrange(0, 30), rng.randrange(0, 30)
             zz, t = (x, y) if rng.random() < .3 else (x + rng.randrange(0, 4), y + rng.randrange(0, 4))
-            ranges.append(dict(name="nr_%d" % i, table=rng.choice(["old", "old", "other"]), area=[x, y, zz, t]))
+            ranges.append(dict(name="nr_%d" % i, table=rng.choice(["old", "old"] + list(range(len(others))) * 2), area=[x, y, zz, t]))
         new2 = None
         if rng.random() < .35:
-            new2 = okname()
-            if new2 in (other, new.strip()):
-                new2 = new2 + "y"
-        if new.strip() == other:
-            new = new + "z"
-        specs.append(dict(k="nrename", old=old, other=other, new=new, new2=new2, ranges=ranges))
+            new2 = near_name(rng, old) if rng.random() < .5 else okname()
+            if not name_usable(new2) or new2 in others or new2 == new.strip():
+                new2 = new.strip() + "y"
+        specs.append(dict(k="nrename", old=old, others=others, new=new, new2=new2, ranges=ranges))
+        if rng.random() < .6:
+            specs.append(dict(k="nlookup", old=old, others=others, ranges=ranges))
     return specs
 
 
@@ -1166,17 +1212,30 @@ def run_named(spec, odfdo):
         if b[0] == "ok" and b[1][0] is not None and len(b[1][1]) == 4:
             back = "(Some (%s, (%s, %s, %s, %s)))" % (cs(b[1][0]), *[oz(v) for v in b[1][1]])
         return "NMake %s %s true %s %s %s" % (cs(n), area_term(a), ostr(base), ostr(rng_), back)
-    # rename inside a spreadsheet document
+    # a spreadsheet document with the table to rename and its look-alikes, named ranges on each
     from odfdo import Document, Table
     doc = Document("spreadsheet"); body = doc.body; body.clear()
-    told = Table(spec["old"]); tother = Table(spec["other"])
-    body.append(told); body.append(tother)
-    tabs = {"old": told, "other": tother}
+    others = spec.get("others") or [spec["other"]]
+    told = Table(spec["old"]); body.append(told)
+    tabs = {"old": told, "other": None}
+    for i, n in enumerate(others):
+        tabs[i] = Table(n); body.append(tabs[i])
+    tabs["other"] = tabs[0]
     for rg in spec["ranges"]:
         tabs[rg["table"]].set_named_range(rg["name"], tuple(rg["area"]))
     def snapshot():
         root = etree.fromstring('<r %s>%s</r>' % (NSDECL, body.serialize()))
         return [(e.get(TB + "name"), e.get(TB + "base-cell-address"), e.get(TB + "cell-range-address")) for e in root.iter(TB + "named-range")]
+    if spec["k"] == "nlookup":
+        # lookup of named ranges by table name: str form, one-element list, list of two — exactly the ranges of those tables
+        names = [spec["old"]] + list(others)
+        queries = [([n], "str") for n in names] + [([n], "list") for n in names] + [([names[0], names[-1]], "list"), ([names[-1], names[0]], "list")]
+        before = snapshot(); qt = []
+        for q, form in queries:
+            arg = q[0] if form == "str" else list(q)
+            r = guarded(lambda: [nr.name for nr in tabs[0].get_named_ranges(table_name=arg)])
+            qt.append("([%s], %s)" % (";".join(cs(n) for n in q), "None" if r[0] == "err" else "(Some [%s])" % ";".join(cs(n) for n in r[1])))
+        return "NLookup [%s] [%s]" % (";".join("(%s, %s, %s)" % (cs(nm), cs(b), cs(ra)) for nm, b, ra in before), ";".join(qt))
     old_name, new_name = spec["old"], spec["new"]
     if spec.get("new2") is not None:
         # two renamings in a row: the ranges must follow the table both times; the second step is the one checked
@@ -1203,6 +1262,8 @@ def name_class(n):
 def key_named(spec, code):
     if spec["k"] == "nmake":
         return "NamedRange/address/%s/code%d" % (name_class(spec["n"].strip()), code)
+    if spec["k"] == "nlookup":
+        return "Table.get_named_ranges/table_name/code%d" % code
     return "Table.name-setter/%s/code%d" % (name_class(spec["old"] + spec["new"].strip()), code)
 
 
@@ -1215,7 +1276,8 @@ LAYERS = {
     "C": {1: "forms: two forms of the same address leave different tables", 2: "position: the table after the call is not the model's"},
     "D": {1: "round trip: the address written is not read back as (table name, area)",
           3: "syntax: the address written does not denote (table name, area) for the ODF reader model",
-          5: "rename: named ranges not updated / others changed", 2: "acceptance of the table name differs from the model"},
+          5: "rename: named ranges not updated / others changed", 2: "acceptance of the table name differs from the model",
+          6: "lookup: get_named_ranges(table_name=...) does not return exactly the ranges of the tables asked for"},
 }
 FIDELITY = {"A": {9}, "B": {9}, "C": {9}, "D": {8}}
 
